@@ -55,6 +55,10 @@ class PubSub:
         elif p["prior"] == "other-object-at-the-same-time":
             O = H.new_ao("O", st_o)         # started, subscribes from another thread while S subscribes
         s.settle()
+        if p.get("pub_before"):
+            # the signal has already been published (and delivered to the earlier subscriber) before S subscribes
+            B.publish(Event(signal="P", payload="early"))
+            s.settle()
         if p.get("window") == "all":
             s.open_window()
         if p["prior"] == "same-object-other-kind":
@@ -154,6 +158,8 @@ def matrix():
 def params(tier):
     q = tier == "quick"
     ps = matrix()
+    # the same matrix rows with another object subscribed earlier and a publication already delivered to it
+    ps += [dict(p, pub_before=True) for p in matrix() if p["prior"] == "other-object" and p["spied_s"] and p["spied_p"] and p["kind"] is not None]
     # preemption-bounded part: the publication races the delivery threads and the objects' own threads
     sel = []
     for p in ps:
